@@ -77,6 +77,18 @@ for fn in glob.glob(f"{R}/evidence/C*.json"):
     except Exception:
         pass
 n_seeds = len(glob.glob(f"{R}/seeded/*/meta.json"))
+_sd = {"input": [], "broken": [], "missed": [], "superseded": []}
+for _fn in sorted(glob.glob(f"{R}/seeded/*/meta.json")):
+    _m = json.load(open(_fn)); _name = os.path.basename(os.path.dirname(_fn))
+    _v = _m.get("rebased") if isinstance(_m.get("rebased"), dict) and "detected" in _m.get("rebased", {}) else _m.get("verification", {})
+    if _m.get("superseded"):
+        _sd["superseded"].append(_name)
+    elif _v.get("detected_with_input", _v.get("detected")):
+        _sd["input"].append(_name)
+    elif _v.get("detected"):
+        _sd["broken"].append(_name)
+    else:
+        _sd["missed"].append(_name)
 n_v = sum(1 for _ in glob.glob(f"{R}/coq/*/*.v") if "/Corr/" not in _)
 loc = 0
 for fn in glob.glob(f"{R}/coq/*/*.v"):
@@ -95,8 +107,9 @@ summary = f"""## 9b. Summary in numbers (generated)
 * {len(fixes)} genuine defects of tefra/xsdata repaired by `fix:` commits (the 263 baseline tests pass unedited after each), {n_fixed} `fixed:` entries,
   {n_open} open known findings (each with a witness that the check re-finds on every run and, where the model reproduces it, a
   machine-checked refutation + guard clause);
-* {n_seeds} independently seeded breakages kept under `seeded/` (four rounds), each detected by its property's check on the final tree
-  with a concrete failing input (one, `C05-m1`, became an equivalent mutant after a repair and is marked superseded);
+* {n_seeds} independently seeded breakages kept under `seeded/` (five rounds): {len(_sd["input"])} detected by their property's check with a
+  concrete failing input, {len(_sd["broken"])} only through a broken obligation / source tie ({", ".join(_sd["broken"]) or "none"}), {len(_sd["missed"])} not detected
+  ({", ".join(_sd["missed"]) or "none"}; see §13 round 5 for why), {len(_sd["superseded"])} superseded (`C05-m1` became an equivalent mutant after a repair);
 * `coqchk` over all property files: exit 0, no type-in-type, no unsafe fixpoints, no assumed positivity (§12b)."""
 built = built.replace("<<SUMMARY_NUMBERS>>", summary)
 parts = [plan, "\n---------------------------------------------------------------------------\n", built,
